@@ -268,6 +268,46 @@ Fixpoint sufwalk (p : prog) (fa : nat) (pc : nat) (seen : list nat) (s : list N)
 
 Definition constant_suffix (p : prog) : option (list N) := sufwalk p (alt_fuel p) (start p) [] [].
 
+(* ConstantSuffix as written after fixes/C18-suffix-budget.patch: the walk counts its calls (`budget--` at the
+   entry of evaluate) and gives up, reporting no suffix, when constantSuffixBudget calls are used up. *)
+Inductive sres := SOk (s : list N) (b : N) | SBudget | SErr.
+Definition SUFFIX_BUDGET : N := 262144.        (* 1 << 18 *)
+
+Fixpoint sufwalkB (p : prog) (fa : nat) (b : N) (pc : nat) (seen : list nat) (s : list N) : sres :=
+  if b =? 0 then SBudget
+  else
+    let b := N.pred b in
+    match fa with
+    | O => SErr
+    | S fa' =>
+      match lin p (lin_fuel p) pc with
+      | None => SErr
+      | Some (rs, e) =>
+        let s' := fold_left suf_step rs s in
+        match e with
+        | LMatch => SOk s' b
+        | LFail => SOk [] b
+        | LAlt a o g =>
+          if mem a seen then SOk [] b
+          else match sufwalkB p fa' b o (a :: seen) s' with
+               | SOk s2 b2 =>
+                 match sufwalkB p fa' b2 g (a :: seen) s' with
+                 | SOk s1 b1 => SOk (common_suffix s1 s2) b1
+                 | x => x
+                 end
+               | x => x
+               end
+        end
+      end
+    end.
+
+Definition constant_suffix_b (p : prog) : option (list N) :=
+  match sufwalkB p (alt_fuel p) SUFFIX_BUDGET (start p) [] [] with
+  | SOk s _ => Some s
+  | SBudget => Some []
+  | SErr => None
+  end.
+
 (* ---------------------------------------------------------------- well-formedness (decidable; the driver
    prints it for every real program): every linear run ends within |p| steps (targets in range, known
    opcodes, every cycle passes an Alt), Alt targets are in range, and the specialised opcodes have the
